@@ -82,7 +82,10 @@ class Polygons(polylist.Polylist):
 
         polygon_indices = []
         for indexnode in indexnodes:
-            index = numpy.fromstring(indexnode.text, dtype=numpy.int32, sep=' ')
+            if indexnode.text is None or indexnode.text.isspace():
+                index = numpy.array([], dtype=numpy.int32)
+            else:
+                index = numpy.fromstring(indexnode.text, dtype=numpy.int32, sep=' ')
             index[numpy.isnan(index)] = 0
             polygon_indices.append(index)
 
